@@ -168,6 +168,24 @@ fn c19_order() {
         let want = Some(rules[c].2);
         if got != want { found("c19_order", &format!("css={} split={} html=<p class=\"x y z\">t</p>", css, split), &format!("colour {:?}, expected the last rule's {:?}", got, want)); }
     }}}}
+    // three declarations of different specificity in every order, with every assignment of two colours (a declaration may restate the value
+    // already computed): the winner is the declaration with the greatest (ids, classes, elements), the later one on a tie
+    let sels = [("p", (0, 0, 1)), (".k", (0, 1, 0)), ("#i", (1, 0, 0)), ("p.k", (0, 1, 1)), ("p", (0, 0, 1))];
+    let cols = [("#ff0000", (255u8, 0u8, 0u8)), ("#0000ff", (0u8, 0u8, 255u8))];
+    for a in 0..sels.len() { for b in 0..sels.len() { for c in 0..sels.len() { for mask in 0..8usize {
+        let seq = [a, b, c];
+        let mut css = String::new(); let mut best: Option<((i32, i32, i32), usize)> = None;
+        for (pos, &k) in seq.iter().enumerate() {
+            let col = cols[(mask >> pos) & 1];
+            css.push_str(&format!("{}{{color:{};}} ", sels[k].0, col.0));
+            if best.map(|(key, _)| sels[k].1 >= key).unwrap_or(true) { best = Some((sels[k].1, pos)); }
+        }
+        cases += 1;
+        let cfg = match config::rich().add_css(&css) { Ok(c) => c, Err(_) => continue };
+        let got = colour_of(cfg, "<p id=i class=k>t</p>");
+        let want = Some(cols[(mask >> best.unwrap().1) & 1].1);
+        if got != want { found("c19_order", &format!("css={} html=<p id=i class=k>t</p>", css), &format!("colour {:?}, expected {:?} (declaration {} wins the cascade)", got, want, best.unwrap().1 + 1)); }
+    }}}}
     println!("NONE {}", cases);
 }
 
